@@ -517,6 +517,8 @@ class VeriTAndPos(Macro):
     def eval(self, args, prevs=None):
         # args: ~(p1 & p2 & ... & pn) and pk
         neg_conj, pk = args
+        if not neg_conj.is_not():
+            raise VeriTException("and_pos", "the first literal should be a negation")
         conjs = neg_conj.arg.strip_conj()
         if pk in conjs:
             return Thm(Or(neg_conj, pk))
@@ -545,6 +547,8 @@ class VeriTOrPos(Macro):
 
     def eval(self, args, prevs=None):
         neg_disj = args[0]
+        if not neg_disj.is_not():
+            raise VeriTException("or_pos", "the first literal should be a negation")
         disjs = neg_disj.arg.strip_disj()
         for a, b in zip(disjs, args[1:]):
             if a != b:
